@@ -18,6 +18,7 @@ mod c05;
 mod c06;
 mod c07;
 mod c09;
+mod c11;
 mod c15;
 mod gen;
 mod sexp;
@@ -89,9 +90,15 @@ impl Out {
         }
     }
     /// One correspondence case. `nontrivial` follows the per-property rule printed in the evidence.
-    pub fn case(&mut self, req: &str, imp: &str, nontrivial: bool) {
-        debug_assert!(!req.contains('\n') && !imp.contains('\n'));
+    /// The request is on disk before the implementation runs: if the process dies (abort, stack overflow,
+    /// allocation failure), req.txt has one line more than impl.txt and that line is the input.
+    pub fn begin(&mut self, req: &str) {
+        debug_assert!(!req.contains('\n'));
         writeln!(self.req, "{req}").unwrap();
+        self.req.flush().unwrap();
+    }
+    pub fn case(&mut self, req: &str, imp: &str, nontrivial: bool) {
+        debug_assert!(!imp.contains('\n'));
         writeln!(self.imp, "{imp}").unwrap();
         self.n += 1;
         if nontrivial {
@@ -188,6 +195,7 @@ pub fn guarded<T>(f: impl FnOnce() -> T + std::panic::UnwindSafe) -> Result<T, S
 }
 
 thread_local! {
+    pub static LAST_REQ: std::cell::RefCell<String> = std::cell::RefCell::new(String::new());
     pub static LAST_PANIC: std::cell::RefCell<String> = std::cell::RefCell::new(String::new());
 }
 
@@ -220,6 +228,8 @@ pub fn eval(out: &mut Out, req: &str) -> String {
         c05::eval(out, op, &args)
     } else if op.starts_with("hash.") || op.starts_with("lbl.") {
         c15::eval(out, op, &args)
+    } else if op.starts_with("txt.") {
+        c11::eval(out, op, &args)
     } else if op.starts_with("pr.") {
         c16::eval(out, op, &args)
     } else {
@@ -230,6 +240,10 @@ pub fn eval(out: &mut Out, req: &str) -> String {
 
 impl Ctx {
     pub fn emit(&mut self, req: &str, nontrivial: bool) -> String {
+        if std::env::var_os("VERIF_PANIC_TRACE").is_some() {
+            LAST_REQ.with(|p| *p.borrow_mut() = req.to_string());
+        }
+        self.out.begin(req);
         let ans = eval(&mut self.out, req);
         if ans.starts_with("panic") {
             let loc = LAST_PANIC.with(|p| p.borrow().clone());
@@ -248,6 +262,9 @@ fn main() {
     }
     std::panic::set_hook(Box::new(|info| {
         let loc = info.location().map(|l| format!("{}:{}", l.file(), l.line())).unwrap_or_default();
+        if std::env::var_os("VERIF_PANIC_TRACE").is_some() {
+            eprintln!("{info}\n{}\nrequest: {}", std::backtrace::Backtrace::force_capture(), LAST_REQ.with(|p| p.borrow().clone()));
+        }
         LAST_PANIC.with(|p| *p.borrow_mut() = loc);
     }));
     let prop = args[1].as_str();
@@ -282,6 +299,9 @@ fn main() {
         "C06" => c06::run(&mut ctx),
         "C07" => c07::run(&mut ctx),
         "C09" => c09::run(&mut ctx),
+        "C11" => c11::run_c11(&mut ctx),
+        "C12" => c11::run_c12(&mut ctx),
+        "C13" => c11::run_c13(&mut ctx),
         "C15" => c15::run(&mut ctx),
         "C16" => c16::run(&mut ctx),
         _ => {
